@@ -2,7 +2,8 @@
 # ./benign.sh <dir-with-diffs>   apply each behaviour-preserving variant to /repo, run every quick check, report any
 # check that is not silent (a false alarm of the machinery), revert. Not a registered check.
 cd /verif
-for d in "$1"/*.diff; do
+dir=$(cd "$1" && pwd)
+for d in "$dir"/*.diff; do
   n=$(basename $d .diff)
   [ -n "$(git -C /repo status --porcelain)" ] && { echo "/repo not clean"; exit 2; }
   git -C /repo apply $d || { echo "## $n: patch does not apply"; continue; }
